@@ -1,5 +1,7 @@
 import BSModel.Driver.Util
 import BSModel.Model.Envelope
+import BSModel.Model.EnvelopeTokenizer
+import BSModel.Driver.TK
 namespace BS.Drv.C06
 open BS.Construct BS.Drv
 
@@ -171,7 +173,39 @@ def dammitEOp (code : Code) (cands spell look canon lowered table ascii log : St
     | none => s!"none repl={bit r.containsReplacement}"
     | some t => s!"some enc={r.originalEncoding.getD 0} repl={bit r.containsReplacement} empty={bit t.isEmpty}"
 
+/-- `pipe <void> <dup> <lines> <pre> <cont> <table> <text>`: `EnvelopeTokenizer.feedClose` (text → tokenizer MODEL → bs4's handlers →
+    construction machine): `tree|<tree as c04 adapt prints it>`, `prm`, or `outoffuel` (never); configuration tokens as for `c04 adapt`,
+    table as for `tk tokens` -/
+def handlePipe (void dup lines pre cont tab text : String) : String :=
+  let bcfg0 := C03.mkCfg pre cont
+  let bcfg := { bcfg0 with asciiSpaces := BS.Gen.asciiSpaces, rootName := BS.Gen.rootTagName }
+  let t := TK.parseTab tab
+  let voidS := (void.drop 5).toString
+  let voids := (splitNE "." voidS).map ofS
+  let acfg : BS.Adapter.ACfg :=
+    { isVoid := fun n => voidS == "*" || voids.contains n,
+      dup := if dup == "dup=ignore" then .ignore else if dup == "dup=acc" then .accumulate else .replace,
+      storeLines := lines == "lines=1",
+      entity := fun n => (TK.look t.e n).join,
+      cp1252 := fun n => (BS.Gen.cp1252Table.find? (fun e => e.1 == n)).map (·.2),
+      origDecode := fun _ => none,
+      maxDigits := BS.Gen.intMaxStrDigitsC04 }
+  match BS.EnvelopeTokenizer.feedClose ⟨TK.params t, acfg, bcfg⟩ (cps text) with
+  | .tree docs infos => s!"tree|{(C04.showDocs docs infos).1}"
+  | .rejected => "prm"
+  | .outOfFuel => "outoffuel"
+
+/-- `raises <text>`: the indices `i` with `<![` at `i` on which `parse_marked_section` raises (= `RaisesAt (text.drop i)`,
+    `Props.C06.marked_section_raises_iff`), `-` if none -/
+def handleRaises (text : String) : String :=
+  let s := cps text
+  let idx := (List.range s.length).filter fun i =>
+    BS.Tokenizer.sw [60, 33, 91] (s.drop i) && BS.Tokenizer.parseMarkedSection none (s.drop i) == .err
+  if idx.isEmpty then "-" else ",".intercalate (idx.map toString)
+
 def handle : List String → String
+  | ["pipe", void, dup, lines, pre, cont, tab, text] => handlePipe void dup lines pre cont tab text
+  | ["raises", text] => handleRaises text
   | ["dammite", code, cands, spell, look, canon, lowered, table, ascii, log] =>
     dammitEOp (parseCode code) cands spell look canon lowered table ascii log
   | ["inject", code, pt, cls] =>
